@@ -2,7 +2,7 @@
 import hashlib, json, os, re, signal, subprocess, time
 import vlib, runscen
 
-THEOREMS = [("Properties.C13", "C13_holds"), ("AsFound.C13", "C13_as_found_refuted'")]
+THEOREMS = [("Properties.C13", "C13_holds"), ("Properties.C13", "C13_any_limit_holds"), ("AsFound.C13", "C13_as_found_refuted'")]
 CORRESPONDENCE = "monorail run killed at guarded points / by SIGKILL == Model.Tracking.crash (every strict prefix of run_ops)"
 LEVEL_NOTE = ("Coq theorem C13_holds (every M >= 2, every healthy store, every strict prefix of a run's file-system effects): result show / log show are unchanged, the "
               "store stays healthy, the next run uses the same slot and every other retained run is untouched; the checkpoint is not among a run's effects. Partial: "
@@ -123,6 +123,57 @@ def scenario(ctx, rng, M, n_done, crash):
     finally:
         rr.close()
 
+def lowered_limit_scenario(ctx, rng, M0, k, M1, crash):
+    """max_retained_runs is lowered (M0 -> M1, 2 <= M1 < k <= M0) after k completed runs, so the pointer names a slot above the present
+    limit; then a run is killed.  The last completed run must still be what result show / log show return (C13_any_limit_holds)."""
+    rr = runscen.RunRepo(ctx, CFG, M=M0, commands=["build", "test"])
+    ids, hist, last_doc = {}, [], None
+    try:
+        vlib.monorail(rr.repo, "checkpoint", "update")
+        for n in range(k):
+            rc, out, err, raw = rr.run("-c", *rng.sample(["build", "test"], rng.randint(1, 2)))
+            if rc != 0 or out is None:
+                ctx.record({"M": M0, "what": "set-up run failed"}, True, False, False, False, detail={"rc": rc, "err": err}); return
+            last_doc = out
+            obs, slots, ptr = observe(rr, ids, M0)
+            hist.append([M0, [obs[1][ptr][0], obs[1][ptr][1][0]]])
+        rc, cp_before, _, _ = vlib.monorail(rr.repo, "checkpoint", "show")
+        cfgp = os.path.join(rr.repo, "Monorail.json")
+        full = json.load(open(cfgp)); full["max_retained_runs"] = M1; json.dump(full, open(cfgp, "w"))
+        rr.script = {"*": {"sleep_ms": 250 if crash == "sigkill" else 0}}; rr.write_script()
+        rr.run_no += 1; rr.clear_traces()
+        env = dict(os.environ); env.update(vlib.GIT_ENV); env.update(rr.env())
+        if crash != "sigkill": env["MONORAIL_VERIF_POINTS"] = "%s=abort:1" % crash
+        p = subprocess.Popen([vlib.BIN_MONORAIL, "-f", cfgp, "run", "-c", "build", "test"], cwd=rr.repo, env=env, stdout=subprocess.PIPE, stderr=subprocess.PIPE)
+        if crash == "sigkill":
+            time.sleep(0.05 + rng.random() * 0.5); p.send_signal(signal.SIGKILL)
+        try: so, se = p.communicate(timeout=60)
+        except subprocess.TimeoutExpired: p.kill(); so, se = p.communicate()
+        time.sleep(0.35 if crash == "sigkill" else 0.05)
+        case = {"lowered_limit": [M0, M1], "completed_runs": k, "crash": crash}
+        if p.returncode >= 0:
+            ctx.count("lowered_limit_point_not_reached"); return
+        obs, slots, ptr = observe(rr, ids, M0)
+        v = ctx.model.call("crash_var", M0, hist, M1, [[], 0], obs)
+        rc2, shown, err2, _ = vlib.monorail(rr.repo, "result", "show")
+        ok_show = rc2 == 0 and runscen.strip_result(shown) == runscen.strip_result(last_doc)
+        rcl, _, _, rawl = vlib.monorail(rr.repo, "log", "show", "--stdout", "--stderr")
+        nums = set(int(x) for x in re.findall(rb"^run=(\d+) ", rawl.stdout, flags=re.M))
+        ok_log = rcl == 0 and nums <= {k}
+        rc3, cp_after, _, _ = vlib.monorail(rr.repo, "checkpoint", "show")
+        ok_cp = cp_after is not None and cp_before is not None and cp_after.get("checkpoint") == cp_before.get("checkpoint")
+        ok = bool(v[3]) and ok_show and ok_log and ok_cp
+        ctx.count("lowered_limit_killed_at_" + crash)
+        ctx.record(case, True, bool(v[2]), ok, True, sample={"limit": [M0, M1], "completed_runs": k, "crash": crash, "pointer_after": ptr},
+                   detail={"model_agrees": bool(v[2]), "state_ok": bool(v[3]), "ok_show": ok_show, "show_err": err2, "ok_log": ok_log, "ok_cp": ok_cp, "pointer": ptr})
+        rr.script = {"*": {}}; rr.write_script()
+        rc, out, err, raw = rr.run("-c", "build")
+        rc4, shown2, _, _ = vlib.monorail(rr.repo, "result", "show")
+        ok_next = rc == 0 and out is not None and not out.get("failed") and rc4 == 0 and runscen.strip_result(shown2) == runscen.strip_result(out)
+        ctx.record(dict(case, what="next run after the crash"), True, ok_next, ok_next, True, detail={"rc": rc, "err": err, "show_rc": rc4})
+    finally:
+        rr.close()
+
 import shutil
 STRACE = shutil.which("strace")
 FILE_CALLS = "%file,fsync,fdatasync,ftruncate"
@@ -233,6 +284,10 @@ def run(ctx, scale):
         scenario(ctx, random.Random(rng.getrandbits(32)), M, M, crash)
     # three-digit retention (no wrap-around in reach: the point is the slot naming and the model's range)
     scenario(ctx, random.Random(rng.getrandbits(32)), 100, 2, "run_before_store_result")
+    # max_retained_runs lowered under the pointer, then a crash
+    for M0, k, M1, crash in ([(5, 4, 3, "run_after_slot_setup"), (4, 4, 2, "sigkill")] if ctx.quick() else
+                             [(5, 4, 3, "run_after_slot_setup"), (4, 4, 2, "sigkill"), (10, 7, 2, "run_before_store_result"), (6, 5, 4, "run_save_before_rename"), (3, 3, 2, "compressor_before_join"), (12, 11, 10, "sigkill")]) * scale:
+        lowered_limit_scenario(ctx, random.Random(rng.getrandbits(32)), M0, k, M1, crash)
     # every file-system call of the run as a crash point (strace injection; no hooks involved)
     for M, n_done in ([(2, 2)] if ctx.quick() else [(2, 1), (2, 2), (3, 4), (10, 10)]) * scale:
         syscall_sweep(ctx, random.Random(rng.getrandbits(32)), M, n_done)
@@ -243,6 +298,9 @@ def run(ctx, scale):
 def replay(ctx, case):
     import random
     c = case.get("case", case)
+    if "lowered_limit" in c:
+        lowered_limit_scenario(ctx, random.Random(ctx.seed), c["lowered_limit"][0], c["completed_runs"], c["lowered_limit"][1], c["crash"])
+        return {"spec_failures": [d for _, d in ctx.spec_failures][:3], "disagreements": [d for _, d in ctx.tie_breaks][:3]}
     if c.get("sweep") == "syscall":
         syscall_sweep(ctx, random.Random(ctx.seed), c.get("M", 2), c.get("completed_runs", 2), c.get("step", 1))
         return {"spec_failures": [d for _, d in ctx.spec_failures][:3], "disagreements": [d for _, d in ctx.tie_breaks][:3]}
